@@ -148,7 +148,7 @@ package raft
 //@ ghost field entry.gcfgok bool
 //@ pure CfgEntryOK(e *entry) bool = e.typ == entryConfig ==> e.gcfgok
 //@ pure AllCfgOK() bool = forall(e, CfgEntryOK(e))
-//@ pure LeaderWF(l *leader) bool = l.Raft != nil && NodeInv(l.Raft) && l.transfer.timer != nil && l.transfer.newTermTimer != nil && l.timer != nil && ReplsOK(l) && AllNE() && AllCfgOK() && l.removeLTE <= l.lastLogIndex && l.lastLogIndex < 18446744073709551615 && MajorityPre(l)
+//@ pure LeaderWF(l *leader) bool = l.Raft != nil && NodeInv(l.Raft) && l.transfer.timer != nil && l.transfer.newTermTimer != nil && l.timer != nil && ReplsOK(l) && AllNE() && AllCfgOK() && l.log.gprev <= l.removeLTE && l.removeLTE <= l.lastLogIndex && l.lastLogIndex < 18446744073709551615 && MajorityPre(l)
 
 // STUB: (*leader).majorityMatchIndex is being proved separately; only what onMajorityCommit needs
 // (duplicate of func (*leader).majorityMatchIndex removed: defined in verif_contracts_majority.go)
@@ -341,7 +341,7 @@ package raft
 //@ func (*leader).init
 //@   requires l.Raft != nil && NodeInv(l.Raft) && PoolsInv(l.Raft) && l.transfer.timer != nil && l.transfer.newTermTimer != nil && l.timer != nil && ReplsOK(l) && AllNE() && AllCfgOK()
 //@   requires l.lastLogIndex < 18446744073709551615 && l.flushed >= l.commitIndex && CfgIDs(l.configs.Latest)
-//@   requires l.repls != nil && KeyIsID(l.configs.Latest) && NumVoters(l.configs.Latest) >= 1
+//@   requires l.repls != nil && KeyIsID(l.configs.Latest) && NumVoters(l.configs.Latest) >= 1 && forall(k, !has(l.repls, k))
 //@   requires [C15.leader-is-self] l.leader == l.nid
 //@   modifies *
 //@   maypanic OpError
@@ -352,7 +352,7 @@ package raft
 //@   ensures [C02.leader-commit-rule] l.commitIndex >= old(l.commitIndex) && (l.commitIndex != old(l.commitIndex) ==> l.commitIndex >= l.startIndex)
 //@   ensures [C06.flush-before-advance] l.flushed >= l.commitIndex
 //@   ensures LeaderWF(l)
-//@   loop 1 invariant l.Raft != nil && NodeInv(l.Raft) && PoolsInv(l.Raft) && ReplsOK(l) && l.removeLTE <= l.lastLogIndex && l.repls != nil && LeaderCache(l) && subset(visitedset(), keys(l.configs.Latest.Nodes)) && forall(k, visited(k) && k != l.nid ==> has(l.repls, k) && l.repls[k] != nil)
+//@   loop 1 invariant l.Raft != nil && NodeInv(l.Raft) && PoolsInv(l.Raft) && ReplsOK(l) && l.removeLTE <= l.lastLogIndex && l.repls != nil && LeaderCache(l) && subset(visitedset(), keys(l.configs.Latest.Nodes)) && forall(k, visited(k) && k != l.nid ==> has(l.repls, k) && l.repls[k] != nil) && forall(k, has(l.repls, k) ==> l.repls[k] != nil && l.repls[k].status.matchIndex == 0)
 
 //@ func (*leader).onTimeout
 //@   requires l.Raft != nil && RaftWF(l.Raft) && l.timer != nil && ReplsCover(l)
